@@ -170,9 +170,11 @@ enum Leaf {
     Fail,
     /// the body fails in the iteration where `x == k`
     FailK,
+    /// an included template fails after opening scopes of its own
+    FailInc,
 }
-const LEAVES: [(Leaf, &str); 8] =
-    [(Leaf::Fail, "fail"), (Leaf::FailK, "failk"), (Leaf::T, "T"), (Leaf::Empty, "empty"), (Leaf::Brk, "brk"), (Leaf::Cont, "cont"), (Leaf::Rec, "rec"), (Leaf::RecF, "recf")];
+const LEAVES: [(Leaf, &str); 9] =
+    [(Leaf::Fail, "fail"), (Leaf::FailK, "failk"), (Leaf::FailInc, "finc"), (Leaf::T, "T"), (Leaf::Empty, "empty"), (Leaf::Brk, "brk"), (Leaf::Cont, "cont"), (Leaf::Rec, "rec"), (Leaf::RecF, "recf")];
 
 #[derive(Clone, Debug)]
 struct Shape {
@@ -211,7 +213,7 @@ impl Shape {
         match self.leaf {
             Leaf::T | Leaf::Empty => true,
             // a failure is only interesting when something swallows it and rendering goes on
-            Leaf::Fail => self.kinds.iter().any(|k| Shape::is_try(*k)),
+            Leaf::Fail | Leaf::FailInc => self.kinds.iter().any(|k| Shape::is_try(*k)),
             Leaf::FailK => {
                 self.kinds.iter().any(|k| Shape::is_try(*k))
                     && self.kinds.iter().any(|k| matches!(k, Kind::For | Kind::ForE | Kind::ForF))
@@ -284,9 +286,12 @@ impl Shape {
             Leaf::RecF => "recurse-captured".into(),
             Leaf::T => "plain".into(),
             Leaf::Empty => "empty-body".into(),
-            Leaf::Fail | Leaf::FailK => {
+            Leaf::Fail | Leaf::FailK | Leaf::FailInc => {
                 // the innermost construct that swallows the failure and what lies between
                 let mut between: Vec<&str> = vec![];
+                if self.leaf == Leaf::FailInc {
+                    between.push("include");
+                }
                 let mut catcher = "none";
                 for k in self.kinds.iter().rev() {
                     match k {
@@ -340,6 +345,7 @@ impl Shape {
                 Leaf::Rec => "{{ loop(x) }}",
                 Leaf::RecF => "{{ loop(x)|fz }}",
                 Leaf::Fail => "{{ fail() }}",
+                Leaf::FailInc => "{% include 'bad.html' %}",
                 Leaf::FailK => "{{ failif(x == k) }}",
             });
             return;
@@ -521,7 +527,7 @@ impl Spec<'_> {
                 Leaf::T | Leaf::Empty => Flow::Normal,
                 Leaf::Brk => Flow::Break,
                 Leaf::Cont => Flow::Continue,
-                Leaf::Fail => Flow::Fail,
+                Leaf::Fail | Leaf::FailInc => Flow::Fail,
                 Leaf::FailK => {
                     if sc.x == XVal::Int(self.p.k) {
                         Flow::Fail
@@ -812,6 +818,11 @@ fn shape_env() -> Environment<'static> {
     )
     .unwrap();
     env.add_template("inc.html", "{{ h }}").unwrap();
+    env.add_template(
+        "bad.html",
+        "{% with y = 1 %}{% autoescape false %}{% set c %}x{% for i in [1] %}{{ fail() }}{% endfor %}{% endset %}{% endautoescape %}{% endwith %}",
+    )
+    .unwrap();
     env.add_template("lib.txt", "{% macro lm(a) %}{% set t %}m{% endset %}{{ t }}{% endmacro %}").unwrap();
     env
 }
@@ -942,7 +953,7 @@ fn run_dynamic(env: &Environment<'_>, tmpl_name: &str, shape: &Shape, p: &Params
     if !nms.is_empty() {
         fails.push(format!("nested-not-restored[{}]", nested_text(&nms)));
     }
-    let expects_failures = matches!(shape.leaf, Leaf::Fail | Leaf::FailK);
+    let expects_failures = matches!(shape.leaf, Leaf::Fail | Leaf::FailK | Leaf::FailInc);
     match (&res, &spec_a) {
         (Err(_), _) => fails.push(format!("panic@{}", last_panic_location())),
         (Ok(Err(_)), Some(a)) if a == "!RENDER-ERROR" => {}
@@ -1339,7 +1350,7 @@ fn main() {
             do_extras(&mut out);
             {
                 let env = shape_env();
-                for n in ["inc.txt", "inc.html", "lib.txt"] {
+                for n in ["inc.txt", "inc.html", "lib.txt", "bad.html"] {
                     dump_template(&mut out, &format!("extra:shape-helpers/{}", n), "extra", &env.get_template(n).unwrap());
                 }
             }
@@ -1363,7 +1374,7 @@ fn main() {
                     8 => match rng.below(4) {
                         0 => Leaf::Rec,
                         1 => Leaf::RecF,
-                        2 => Leaf::Fail,
+                        2 => Leaf::FailInc,
                         _ => Leaf::FailK,
                     },
                     _ => if rng.chance(1, 2) { Leaf::Fail } else { Leaf::FailK },
